@@ -197,10 +197,11 @@ def m_checked(I, st, fr, args, path, gargs, t):
     ty, op = m.group(1), m.group(2).capitalize()
     p = I.arith_poly(st, op, args[0], args[1])
     rlo, rhi = INT_RANGES[ty]
+    pf = pfreeze(st.norm(p))          # the term as it stands before the overflow assumption refines it
     r = range_split(st, p, rlo, rhi) == 'in'
     if r:
         return some(I.mk(st, ty, p))
-    st.note(('overflows', pfreeze(st.norm(p)), ty))
+    st.note(('overflows', pf, ty))
     return none()
 
 
